@@ -354,3 +354,46 @@ def kept_loads_block(draw):
     tail = draw(st.sampled_from([[], [("SWAP2", None), ("POP", None)], [("SWAP1", None)], [("POP", None)], [("DUP2", None), ("ADD", None)]]))
     return out + tail
 
+
+@st.composite
+def swapped_commutative_block(draw):
+    """the same commutative operation computed twice with its operands in both orders (the two instructions are unified by
+    the analysis, which records the renaming in its bookkeeping)"""
+    op = draw(st.sampled_from(sorted(evm.COMMUTATIVE)))
+    form = draw(st.integers(0, 3))
+    I = lambda *names: [(n, None) for n in names]
+    if form == 0:
+        b = I("DUP2", "DUP2", op, "SWAP2", op)
+    elif form == 1:
+        c = draw(st.sampled_from([1, 2, 0x20, 0xFF]))
+        b = [("PUSH", c)] + I("DUP2", op, "SWAP1") + [("PUSH", c)] + I(op)
+    elif form == 2:
+        b = I("DUP1", "DUP3", op, "DUP3", "DUP3", op)
+    else:
+        b = I("CALLER", "DUP2", op, "SWAP1", "CALLER", op)
+    pre = draw(st.sampled_from([[], I("SWAP1"), I("DUP3"), [("PUSH", 5)], I("DUP2", "DUP2")]))
+    post = draw(st.sampled_from([[], I("SWAP1"), I("POP"), [("PUSH", 0)] + I("MSTORE"), I("SUB"), I("DUP2", "SSTORE")]))
+    return pre + b + post
+
+
+@st.composite
+def store_terms_block(draw):
+    """stores whose operands are stack inputs / small terms at varying depths (their variable names s(k) vary with the depth)"""
+    I = lambda *names: [(n, None) for n in names]
+    n = draw(st.integers(1, 3))
+    out = []
+    for _ in range(n):
+        store = draw(st.sampled_from(["MSTORE", "SSTORE", "MSTORE", "MSTORE8"]))
+        form = draw(st.integers(0, 4))
+        if form == 0:
+            out += I(store)
+        elif form == 1:
+            out += I("DUP%d" % draw(st.integers(1, 4)), "DUP%d" % draw(st.integers(1, 5)), store)
+        elif form == 2:
+            out += [("PUSH", 0x20)] + I("ADD", "SWAP%d" % draw(st.integers(1, 3)), store)
+        elif form == 3:
+            out += I("SWAP%d" % draw(st.integers(1, 3)), "SWAP1", store)
+        else:
+            out += [("PUSH", 0x40)] + I("MLOAD", "DUP1") + [("PUSH", 0x20)] + I("ADD", "SWAP3", "SWAP1", store, "SWAP1", store)
+    return out + draw(st.sampled_from([[], I("POP"), I("SWAP1")]))
+
